@@ -129,6 +129,13 @@ def model_check(ctx):
     res = tlc.run('MCExpect', cfg, ctx.work, workers=16, timeout=3000, outname='mc.out')
     if res['machinery_error'] or res['timed_out']:
         raise tlc.TLCError('model checking did not finish: ' + res['out'])
+    if not ctx.quick():
+        # deeper than the exhaustive bound: random behaviours with 4 calls, streams <= 6 over {a,b,LF}, windows up to 5
+        sim = tlc.run('MCExpect', 'MCExpect_sim.cfg', ctx.work, workers=16, timeout=900, simulate='num=800000', depth=60,
+                      seed=ctx.seed + 1, outname='mcsim.out')
+        if sim['violated']:
+            raise tlc.TLCError('MCExpect (simulation) violates %s - replay needed, see %s' % (sim['violated'], sim['out']))
+        res['simulated_states'] = sim['generated']
     # per-action coverage is measured on the small configuration (-coverage slows TLC 3x)
     cov = tlc.run('MCExpect', 'MCExpect_q2.cfg', ctx.work, workers=16, timeout=600, coverage=True, outname='cov.out')
     res['coverage'] = cov['coverage']
